@@ -3,6 +3,7 @@ package bcl
 import (
 	"fmt"
 	"reflect"
+	"sort"
 	"strings"
 	"unicode"
 	"unicode/utf8"
@@ -118,8 +119,15 @@ func copyBlock(v reflect.Value, block Block) error {
 		return err
 	}
 fields:
-	for fkey, fval := range block.Fields {
-		err = setField(fkey, fval)
+	// sorted, so that the result and the reported error do not depend
+	// on the map iteration order
+	fkeys := make([]string, 0, len(block.Fields))
+	for fkey := range block.Fields {
+		fkeys = append(fkeys, fkey)
+	}
+	sort.Strings(fkeys)
+	for _, fkey := range fkeys {
+		err = setField(fkey, block.Fields[fkey])
 		if err != nil {
 			return err
 		}
